@@ -1272,6 +1272,17 @@ def generate(ctx):
         npts = rng.choice([0, 1, 2, 3, 5, 8, 13])
         pts = [[rng.randrange(shape[a]) for a in axes] for _ in range(npts)]
         yield "vindexplan", {"chunks": chunks, "axes": axes, "points": pts}
+    if thorough:
+        # exhaustive small space: every chunking (zero-length chunks included) of n <= 3, every list of <= 3 points
+        for n in range(1, 4):
+            for c in compositions(n, zeros=True, maxparts=3):
+                for npts in range(0, 4):
+                    for pts in itertools.product(range(n), repeat=npts):
+                        yield "vindexplan", {"chunks": [list(c)], "axes": [0], "points": [[p] for p in pts]}
+        for c0 in compositions(2):
+            for c1 in compositions(3):
+                for pts in itertools.product(itertools.product(range(2), range(3)), repeat=2):
+                    yield "vindexplan", {"chunks": [list(c0), list(c1)], "axes": [0, 1], "points": [list(p) for p in pts]}
     # vindex with no points, incl. on axes of length zero (their largest chunk is 0)
     for _ in range(ctx.n(12, 120)):
         nd = rng.randint(1, 3)
